@@ -18,14 +18,17 @@ impl Instruction {
 
         if self.arguments.len() >= 1 {
             for arg in &self.arguments[..] {
+                // same encoding as the compiler's binary writer: always quoted, `\` and `"` escaped,
+                // so that the loader reads every argument back exactly
                 args.push(' ');
-                if arg.contains(' ') {
-                    args.push('\"');
-                    args.push_str(arg);
-                    args.push('\"');
-                } else {
-                    args.push_str(arg);
-                }
+                args.push('\"');
+                args.push_str(
+                    &arg.replace('\\', "\\\\")
+                        .replace('"', "\\\"")
+                        .replace('\n', "\\n")
+                        .replace('\r', "\\r"),
+                );
+                args.push('\"');
             }
         }
 
